@@ -58,7 +58,23 @@ def r18_1(ctx):
         # the function post-processes the product into nested tuples; compare the product captured by the hook
         prod = _last_product(ctx, fn, degree, times)
         if isinstance(prod, tuple) and prod and prod[0] == "ERR":
-            out.undecided(fn.qname, f"degree {degree}, times {times}: not interpretable: {prod[1]}", where=fn.where())
+            # not a product of one-step matrices: compare the matrix itself with the k-th derivative matrix of the
+            # Bernstein basis, row i = p!/(p-k)! * sum_j (-1)^(k-j) C(k, j) e_{i+j}
+            val = _derivative_matrix_by_value(ctx, fn, degree, times)
+            import math as _m
+            fac = _m.factorial(degree) // _m.factorial(degree - times)
+            wantm = [[Fr(0)] * (degree + 1) for _ in range(degree - times + 1)]
+            for i in range(degree - times + 1):
+                for j in range(times + 1):
+                    wantm[i][i + j] = Fr(fac * _m.comb(times, j) * (-1) ** (times - j))
+            if val is None:
+                out.undecided(fn.qname, f"degree {degree}, times {times}: not interpretable: {prod[1]}", where=fn.where())
+            elif val != wantm:
+                out.bad(fn.qname, "the matrix is not the k-th derivative matrix of the Bernstein basis", where=fn.where(),
+                        detail=f"degree {degree}, times {times}: first row {[str(x) for x in val[0]]}, required "
+                               f"{[str(x) for x in wantm[0]]}")
+            else:
+                out.ok(fn.qname, f"degree {degree}, {times} time(s): the k-th derivative matrix (by value)", where=fn.where())
         elif prod != want:
             out.bad(fn.qname, "derivative matrices are not composed in order of decreasing degree", where=fn.where(),
                     detail=f"degree {degree}, times {times}: product {prod}, required {want}")
@@ -73,6 +89,33 @@ def r18_1(ctx):
     except (Undecided, Raised) as ex:
         out.undecided(fn.qname, f"times > degree: {ex}", where=fn.where())
     return out
+
+
+def _derivative_matrix_by_value(ctx, fn, degree, times):
+    """the matrix the function returns, as rows of Fractions (numpy's zeros answered by a small matrix stand-in)"""
+    class Arr(StandIn):
+        def __init__(self, n, m):
+            self.rows = [[Fr(0)] * m for _ in range(n)]
+
+        def __setitem__(self, ij, v):
+            self.rows[ij[0]][ij[1]] = v
+
+        def __getitem__(self, ij):
+            return self.rows[ij[0]][ij[1]] if isinstance(ij, tuple) else self.rows[ij]
+
+        def __iter__(self):
+            return iter(self.rows)
+
+        def __len__(self):
+            return len(self.rows)
+    ext = {"np.zeros": lambda shape, dtype=None: (Arr(shape[0], shape[1]) if isinstance(shape, tuple) else [Fr(0)] * shape),
+           "math.comb": __import__("math").comb, "math.factorial": __import__("math").factorial}
+    try:
+        got = Runner(ctx, {"curve.Math.comb"}, lambda rn, ev, c, n, r, a, k: True if n == "isinstance" else NotImplemented,
+                     ext=ext, asserts=True).call_fn(fn, [degree, times])
+        return [[Fr(x) for x in row] for row in got]
+    except Exception:      # noqa: BLE001 -- the value-level fallback is best effort
+        return None
 
 
 def _last_product(ctx, fn, degree, times):
